@@ -189,21 +189,23 @@ def check_boundary_matrix(tier, seed):
         for o in orders:
           for layout in ('center', 'forward', 'backward', 'upwind'):
               for bc in (('dirichlet', 'dirichlet'), ('neumann', 'neumann'), ('dirichlet', 'neumann'), ('neumann', 'dirichlet')):
-                  for reduce in (False, True):
-                      if reduce and (d == 1 or 'neumann' in bc or layout != 'center'):
-                          continue  # reduced closure: centred stencils of growing order (second derivative, Dirichlet)
+                  for reduce, nbo in ((False, None), (True, None)) + ((((False, o + 1), (False, o + 2)) + (((False, o - 1),) if o > 1 else ())) if 'neumann' in bc else ()):
+                      if reduce and 'neumann' in bc:
+                          continue  # reduced closure (centred stencils of growing order reaching up to the boundary point): Dirichlet sides
                       if layout != 'center' and o > 3:
                           continue
                       if layout == 'center' and not (o % 2 == 0 or d % 2 == 1):
                           continue  # centred layout: even orders, and odd orders for odd derivatives
                       n = o + d - (d + 1) % 2 if layout == 'center' else o + d
-                      for size in range(n + 1, n + 1 + extra):
+                      first = n + 1 if not reduce else max(n + 1, 2 * (o + d) + 2)  # the reduced closure of row i is 2(i+1)+1 points wide: the grid has to hold it
+                      for size in range(first, first + extra):
                           xl, xr = -0.3, 1.1
                           dx = (xr - xl) / (size + 1)
                           x = np.array([xl + dx * (i + 1) for i in range(size)])
-                          maxdeg = (d + o - 1) if not reduce else 1 + d
+                          # reduced closure: lowest closure order is 2 (degrees up to derivative + 1), never more than the interior stencil delivers
+                          maxdeg = (d + o - 1) if not reduce else min(1 + d, d + o - 1)
                           if 'neumann' in bc:
-                              maxdeg = min(maxdeg, o)
+                              maxdeg = min(maxdeg, o if nbo is None else nbo)  # order of the one-sided closure of the boundary derivative
                           for deg in range(0, maxdeg + 1):
                               p = lambda t: t**deg
                               dp = lambda t: deg * t ** (deg - 1) if deg >= 1 else 0.0 * t
@@ -212,16 +214,16 @@ def check_boundary_matrix(tier, seed):
                               pars = []
                               for side, xb in zip(bc, (xl, xr)):
                                   val = p(xb) if side == 'dirichlet' else dp(xb)
-                                  pars.append(dict(val=float(val), reduce=reduce))
+                                  pars.append(dict(val=float(val), reduce=reduce, **({} if nbo is None else dict(neumann_bc_order=nbo))))
                               try:
                                   A, b = get_finite_difference_matrix(derivative=d, order=o, stencil_type=layout, dx=dx, size=size, dim=1, bc=bc, bc_params=pars)
                               except Exception as e:
-                                  obs.append(_ob(f'boundary[d={d},o={o},{layout},{bc},reduce={reduce},size={size}]:builds', False, dict(error=repr(e)), backend='numeric'))
+                                  obs.append(_ob(f'boundary[d={d},o={o},{layout},{bc},reduce={reduce},neumann_bc_order={nbo},size={size}]:builds', False, dict(error=repr(e)), backend='numeric'))
                                   break
                               res = dense(A) @ p(x) + b - target
                               scale = max(1.0, np.abs(dense(A)).max() * np.abs(p(x)).max())
                               ok = np.abs(res).max() <= 1e-9 * scale
-                              obs.append(_ob(f'boundary[d={d},o={o},{layout},{bc[0]}/{bc[1]},reduce={reduce},size={size},deg={deg}]:derivative_reproduced_up_to_the_boundary', ok,
+                              obs.append(_ob(f'boundary[d={d},o={o},{layout},{bc[0]}/{bc[1]},reduce={reduce},neumann_bc_order={nbo},size={size},deg={deg}]:derivative_reproduced_up_to_the_boundary', ok,
                                              dict(max_residual=float(np.abs(res).max()), where=int(np.abs(res).argmax())) if not ok else None))
     return _pack('problem_helper.get_finite_difference_matrix[dirichlet/neumann]', obs, 'A p + b = p^(d) on all grid points for monomials within the closure degree',
                  f'derivative 1..2, orders {orders}, all four side combinations, both treatments, sizes n+1..n+{extra}')
